@@ -258,6 +258,18 @@ def Store.loadChecked (acl : Acl) (s : Store) (fetch : Nat → OMap) (amount : I
   if heads.any (fun h => !has (fetch h) h) then .error .notFound
   else s.load acl fetch amount maxHistory
 
+/-- what a store holds after a `Load` that FAILED on a head (`loadChecked` = `.error .notFound`): the
+goroutines of the heads that did come back have merged what they led to, and the view is rebuilt over
+it before the error is returned (review of the F32 repair, `fix:` commit: it returned before
+`updateIndex`, the log held the entries and `Get` answered nil). The cache is left as it is. -/
+def Store.loadReadable (acl : Acl) (s : Store) (fetch : Nat → OMap) (amount : Int) : Store :=
+  let back : Nat → Bool := fun h => has (fetch h) h
+  let s' := { s with localHeads := s.localHeads.map (List.filter back), remoteHeads := s.remoteHeads.map (List.filter back) }
+  match s'.load acl fetch amount with
+  | .ok t => { t with localHeads := s.localHeads, remoteHeads := s.remoteHeads,
+                      idx := updateIndex s.kind s.idx t.log }
+  | .error _ => s
+
 /-- the pinned `Load`: no normalisation of a zero amount, no size clamp -/
 def Store.loadPinned (acl : Acl) (s : Store) (fetch : Nat → OMap) (amount : Int) : Except Err Store :=
   let heads := (s.localHeads.getD []) ++ (s.remoteHeads.getD [])
